@@ -32,6 +32,14 @@ func unbiasedN(t *rapid.T, n int, label string) int {
 // drawIdx selects an entry of a table of n entries uniformly.
 func drawIdx(t *rapid.T, n int, label string) int { return unbiasedN(t, n, label) }
 
+// oneIn is true with probability 1/n (unbiased; the likely raw draw 0 maps to false).
+func oneIn(t *rapid.T, n int, label string) bool {
+	if n <= 1 {
+		return true
+	}
+	return unbiasedN(t, n, label) == n-1
+}
+
 // pick draws an index according to integer weights.
 func pick(t *rapid.T, label string, weights ...int) int {
 	total := 0
@@ -247,7 +255,7 @@ func GenFloat(t *rapid.T) (float64, int) {
 	case 10:
 		f = float64(rapid.Int64Range(-1<<52, 1<<52).Draw(t, "wm"))
 	}
-	if class != 8 && drawInt(t, 0, 3, "neg") == 0 {
+	if class != 8 && oneIn(t, 4, "neg") {
 		f = -f
 	}
 	return f, class
@@ -346,7 +354,7 @@ func widthFor(t *rapid.T, cfg TreeCfg) int {
 
 // GenListV draws a list node (depth counts container levels available).
 func GenListV(t *rapid.T, cfg TreeCfg, depth int) V {
-	if cfg.LongLists && drawInt(t, 0, 39, "longlist") == 0 {
+	if cfg.LongLists && oneIn(t, 40, "longlist") {
 		// a long list of cheap scalars: lengths around powers of two and multiples of small block sizes
 		n := []int{60, 63, 64, 65, 66, 67, 96, 100, 127, 128, 129, 130}[drawIdx(t, 12, "longn")]
 		out := V{K: KList, L: make([]V, 0, n)}
@@ -364,14 +372,14 @@ func GenListV(t *rapid.T, cfg TreeCfg, depth int) V {
 		}
 		return out
 	}
-	if drawInt(t, 0, 11, "repeated") == 0 {
+	if oneIn(t, 12, "repeated") {
 		// 2-8 scalars over an alphabet of two values: some construction routes share one
 		// element wrapper between equal positions
 		a, b := GenLeaf(t, cfg), GenLeaf(t, cfg)
 		n := drawInt(t, 2, 8, "rn")
 		out := V{K: KList}
 		for i := 0; i < n; i++ {
-			if drawInt(t, 0, 2, "rwhich") == 0 {
+			if oneIn(t, 3, "rwhich") {
 				out.L = append(out.L, b)
 			} else {
 				out.L = append(out.L, a)
